@@ -55,6 +55,10 @@ SLOT_ROOT = {"node": "Node", "router": "Router", "firewall": "Firewall", "servic
              "application": "Application", "nic": "NetworkInterface", "folder": "Folder", "file": "File"}
 # template fields that select one of the literal keys of a static level
 CHOICE_FIELDS = {"firewall_port_name": ("Firewall", "ports"), "firewall_port_direction": ("Firewall", "directions")}
+# component kinds whose ROOT manager carries permission rules of its own (Model/Schema.lean `Root` / `gate`)
+GATE_ROOTS = {"Node": "node", "NetworkInterface": "nic", "Service": "service", "Application": "application",
+              "FileSystem": "fileSystem", "Folder": "folder"}
+GATE_AUX = {"Node._os_request_manager": "nodeOs", "FileSystem._delete_manager": "fsDelete"}
 SLOT_LEVEL = {"node": "node", "router": "node", "firewall": "node", "service": "service", "application": "application",
               "nic": "nic", "folder": "folder", "file": "file"}
 
@@ -524,7 +528,12 @@ def build():
             if any(d != dirs[0] for d in dirs) or not dirs[0]:
                 raise ValueError(f"{cname}: the port managers do not share one set of direction keys: {dirs}")
             choices[field] = dirs[0]
-    return {"classes": classes, "choices": choices, "mgrs": mgrs, "level_classes": level_classes, "slot_classes": slot_classes, "names": names,
+    root_of = [(c, GATE_ROOTS[r]) for c in comps for r in GATE_ROOTS if is_subclass(classes, c, r)]
+    for aux, kind in GATE_AUX.items():   # auxiliary managers that carry rules of their own
+        if aux not in mgrs:
+            raise ValueError(f"auxiliary manager {aux} (gate kind {kind}) not found")
+        root_of.append((aux, kind))
+    return {"classes": classes, "root_of": root_of, "choices": choices, "mgrs": mgrs, "level_classes": level_classes, "slot_classes": slot_classes, "names": names,
             "sites": sites, "validators": validator_sources(classes),
             "discriminators": {c: classes[c].discriminator for c in comps if classes[c].discriminator}}
 
@@ -593,6 +602,18 @@ def emit() -> str:
     L.append("/-- template fields that select one of the literal keys of a static level, with those keys -/")
     L.append("def choices : List (String × List String) := [")
     L.append(",\n".join(f"  ({lstr(f)}, [" + ", ".join(lstr(k) for k in ks) + "])" for f, ks in d["choices"].items()) + "]")
+    L.append("")
+    L.append("/-- (class, component kind) for every class that derives from Node / NetworkInterface / Service / Application /")
+    L.append("FileSystem / Folder: the root manager of the class must carry that kind's component gates (`Schema.gate`) -/")
+    L.append("def rootOf : List (String × Root) := [")
+    L.append(",\n".join(f"  ({lstr(c)}, .{r})" for c, r in d["root_of"]) + "]")
+    L.append("")
+    adds = sorted({(f"{s_['owner']}.{s_['attr']}", s_["kind"]) for s_ in d["sites"] if s_["op"] == "add"})
+    rems = sorted({f"{s_['owner']}.{s_['attr']}" for s_ in d["sites"] if s_["op"] == "remove"})
+    L.append("/-- (dynamic manager, level) for every `add_request` site outside `_init_request_manager` -/")
+    L.append("def dynAdds : List (String × Level) := [" + ", ".join(f"({lstr(m)}, .{lv})" for m, lv in adds) + "]")
+    L.append("/-- dynamic managers that also have a `remove_request` site -/")
+    L.append("def dynRemoves : List String := [" + ", ".join(lstr(m) for m in rems) + "]")
     L.append("")
     L.append("def schema : Schema :=\n  { mgrs := mgrs, levelClasses := levelClasses, slotClasses := slotClasses, names := softwareNames, choices := choices }")
     L.append("")
